@@ -122,7 +122,7 @@ void SolveLSE(matrix *mx, dvector *solution)
   /* (*X).row is the number of X, so is equal to the number of unknowns variables */
   for(k = 0; k < X->row; k++){
     for(i = k+1; i < X->row; i++){
-      if(FLOAT_EQ(X->data[i][k], 0, 1e-4) == 0){ /* if the value is not 0 */
+      if(X->data[i][k] != 0.f){ /* if the value is not 0 */
         if(FLOAT_EQ(X->data[k][k], 0, 1e-4) == 1){
           tmp = 0.f;
         }
